@@ -216,7 +216,23 @@ func buildAlias(n *Node, shards []bleve.Index) bleve.Index {
 	for _, k := range n.Kids {
 		kids = append(kids, buildAlias(k, shards))
 	}
-	return bleve.NewIndexAlias(kids...)
+	al := bleve.NewIndexAlias(kids...)
+	// membership maintenance that leaves the covered corpus unchanged: the LAST nested
+	// alias (if it is not the only member) is swapped for a twin over the same members
+	// (what an operator does after rebuilding one shard group); the alias must then
+	// still cover exactly the same documents
+	if len(kids) >= 2 {
+		last := len(kids) - 1
+		if n.Kids[last].Kind != "leaf" {
+			var inner []bleve.Index
+			for _, k := range n.Kids[last].Kids {
+				inner = append(inner, buildAlias(k, shards))
+			}
+			twin := bleve.NewIndexAlias(inner...)
+			al.Swap([]bleve.Index{twin}, []bleve.Index{kids[last]})
+		}
+	}
+	return al
 }
 
 // engines: 0 all scorch, 1 all upsidedown, 2 mixed shards / scorch single, 3 mixed / upsidedown single
